@@ -59,6 +59,13 @@ theorem no_crash (g0 : S) (h : List (Msg S)) : (Impl.run g0 h).status ≠ .crash
 theorem no_wedge (g0 : S) (h : List (Msg S)) : (Impl.run g0 h).status = .running :=
   (Impl.run_refines g0 h).1.run
 
+/-- callbacks may call the observation's own cancel function from `onclose` as well (any number of times,
+for every reason of closing): at each place where the loop calls `onclose` the watcher is busy or
+cancelled, so that call returns without sending.  `Impl.wUpdate` records for every `onclose` whether such
+a call would go on to the send (`blocked`), so `no_wedge` and all theorems below hold for callbacks that
+cancel from `onupdate`, from `onclose`, from both, and repeatedly. -/
+theorem cancel_inside_onclose_returns : ∀ st ∈ Impl.closeSiteStates, Impl.cancelSends st = false := by decide
+
 /-! ### Part 2 — the loop refines the sequential specification -/
 
 theorem refines (g0 : S) (h : List (Msg S)) : abs (Impl.run g0 h) = Spec.run g0 h :=
@@ -224,6 +231,13 @@ theorem no_wedge_false_before_reentrant_repair :
     ∧ Impl.replies (Prev.run 0 reentrant) = [true]
     ∧ Impl.log (Prev.run 0 reentrant) 1 = [.val 0, .val 1]
     ∧ Impl.log (Prev.run 0 reentrant) 2 = [.val 0] := by decide
+
+/-- a variant that makes the watcher idle again before the `onclose(nil)` of a watcher cancelled during its
+callback (`Mut`): a cancel from inside that onclose goes on to the send and blocks the loop; the update
+that triggered it was already acknowledged, the next one never is -/
+theorem no_wedge_false_when_idle_during_onclose :
+    (Mut.run 0 reentrant).status = .wedged ∧ Impl.replies (Mut.run 0 reentrant) = [true]
+    ∧ Impl.log (Mut.run 0 reentrant) 2 = [.val 0] := by decide
 
 /-- the repaired loop on the same histories -/
 theorem repaired_on_witnesses :
